@@ -384,6 +384,8 @@ def real_pump(d, source="bytes"):
     try:
         if source == "bytes":
             h.parse(io.BytesIO(xml), ns_map)
+        elif source == "et_tree":
+            h.parse(ET.ElementTree(ET.fromstring(xml)), ns_map)
         else:
             h.parse(ET.fromstring(xml), ns_map)
     except IndexError:
@@ -528,3 +530,47 @@ def has_mixed(t):
         return any(go(c) for c in n["c"])
 
     return go(t)
+
+
+# --------------------------------------------------------------------------
+# what PushParser hands to handler.parse for each kind of source
+# --------------------------------------------------------------------------
+def real_hsource(kind, text="", data=b"", path=None):
+    """XmlParser.from_string / from_bytes / from_path / parse with a handler that records its `source`"""
+    import pathlib
+
+    from xsdata.formats.dataclass.parsers import XmlParser
+    from xsdata.formats.dataclass.parsers.mixins import XmlHandler
+
+    seen = {}
+
+    class Recorder(XmlHandler):
+        def parse(self, source, ns_map):
+            if isinstance(source, ET.ElementTree):
+                seen["v"] = {"tree": None}
+            elif isinstance(source, ET.Element):
+                seen["v"] = {"element": None}
+            elif isinstance(source, str):
+                seen["v"] = {"name": source}
+            else:
+                seen["v"] = {"stream": list(source.read())}
+            return object()
+
+    p = XmlParser(handler=Recorder)
+    try:
+        if kind == "str":
+            p.from_string(text, object)
+        elif kind == "bytes":
+            p.from_bytes(data, object)
+        elif kind == "path":
+            p.from_path(pathlib.Path(path), object)
+        elif kind == "file":
+            p.parse(io.BytesIO(data), object)
+        elif kind == "et_tree":
+            p.parse(ET.ElementTree(ET.fromstring(b"<r/>")), object)
+        elif kind == "et_element":
+            p.parse(ET.fromstring(b"<r/>"), object)
+    except Exception as e:  # noqa: BLE001
+        if "v" not in seen:
+            return {"err": "HARNESS:" + type(e).__name__}
+    return {"ok": seen["v"]}
